@@ -126,7 +126,14 @@ TgbStates == {[k |-> "tgb", binf |-> a, bsup |-> b] : a \in TgbBnd, b \in TgbBnd
 (* ratio 0/0 = NaN at iter 0, a NaN bound is "undefined" for FFFF() and the first sweep was *)
 (* unconstrained; TLC refuted InBounds on the transcription of that code (flag 'ascoded' of *)
 (* the machine, kept: ascoded = the code of /repo, now equal to the intended semantics).    *)
+(* Selection: a masked sample is not simulated; the sampler works on the ACTIVE samples, rank *)
+(* iact = 1..nact, and reads the bounds of the active sample at its ABSOLUTE rank             *)
+(* getSampleRank(iact) (AGibbs::_boundsCheck, GibbsMulti / GibbsMultiMono::getSimulate,       *)
+(* AGibbs::_isConstraintTight).  mask = 0: no selection; mask = m: site m is masked.          *)
 Thresh == 100
+ActiveSites(mask) == {i \in 1..GN : i # mask}
+NAct(mask) == Cardinality(ActiveSites(mask))
+SampleRank(mask, iact) == IF mask = 0 \/ iact < mask THEN iact ELSE iact + 1
 (* (three sites: a smaller alphabet keeps the exhaustive exploration within minutes) *)
 GVals == IF GN <= 2 THEN {-100, -30, -10, -5, 0, 3, 5, 10, 15, 30, 100} ELSE {-100, -10, -5, 0, 3, 10, 100}
 GPairs == IF GN <= 2 THEN {<<NA, NA>>, <<-10, 0>>, <<5, 15>>, <<NA, -5>>, <<10, NA>>, <<3, 3>>}
@@ -139,7 +146,8 @@ EffWithin(v, p, iter, nburn, ascoded) ==
   ELSE /\ (p[1] = NA \/ (v + Thresh) * nburn >= (p[1] + Thresh) * iter)
        /\ (p[2] = NA \/ (v - Thresh) * nburn <= (p[2] - Thresh) * iter)
 GibbsInit ==
-  UNION {{[k |-> "gibbs", ascoded |-> ac, nburn |-> nb, bnd |-> b, y |-> y, last |-> [i \in 1..GN |-> -1], iter |-> 0, i |-> 1] :
+  UNION {{[k |-> "gibbs", ascoded |-> ac, nburn |-> nb, mask |-> mk, bnd |-> b, y |-> y, last |-> [i \in 1..GN |-> -1], iter |-> 0, i |-> 1] :
+            mk \in 0..(GN - 1),
             ac \in {a \in BOOLEAN : (a /\ "gibbs-ascoded" \in Parts) \/ (~a /\ "gibbs" \in Parts)},
             nb \in {0, 1, 2},
             y \in {f \in [1..GN -> GVals] : \A i \in 1..GN : Within(f[i], b[i][1], b[i][2])}}   \* calculInitialize: the median of the interval
@@ -147,15 +155,17 @@ GibbsInit ==
 VARIABLE st
 GibbsUpdate ==
   /\ st.k = "gibbs" /\ st.iter < GSweeps
-  /\ LET p == st.bnd[st.i]
-         ni == IF st.i = GN THEN 1 ELSE st.i + 1
-         nit == IF st.i = GN THEN st.iter + 1 ELSE st.iter
+  /\ LET site == SampleRank(st.mask, st.i)         \* st.i = iact, rank among the active samples
+         p == st.bnd[site]                          \* bounds read at the ABSOLUTE rank
+         ni == IF st.i = NAct(st.mask) THEN 1 ELSE st.i + 1
+         nit == IF st.i = NAct(st.mask) THEN st.iter + 1 ELSE st.iter
      IN \E v \in GVals :
           /\ IF Hard(p) THEN v = p[1] ELSE EffWithin(v, p, st.iter, st.nburn, st.ascoded)
-          /\ st' = [st EXCEPT !.y[st.i] = v, !.last[st.i] = st.iter, !.i = ni, !.iter = nit]
+          /\ st' = [st EXCEPT !.y[site] = v, !.last[site] = st.iter, !.i = ni, !.iter = nit]
 (* THE PROPERTY at every step: a value drawn at a sweep iter >= nburn lies within its bounds *)
 (* (sweeps before nburn are the documented relaxation)                                       *)
-GibbsInBounds(s) == \A i \in 1..GN : (s.last[i] = -1 \/ s.last[i] >= s.nburn) => Within(s.y[i], s.bnd[i][1], s.bnd[i][2])
+(* every ACTIVE sample against ITS OWN bounds *)
+GibbsInBounds(s) == \A i \in ActiveSites(s.mask) : (s.last[i] = -1 \/ s.last[i] >= s.nburn) => Within(s.y[i], s.bnd[i][1], s.bnd[i][2])
 
 (* ======================================================================= (c) *)
 (* conditional simulation at a target coinciding with datum k, rank r:                      *)
@@ -264,21 +274,26 @@ GPattern(name) ==     \* <<lower, upper>> per site, tenths
     [] name = "none"  -> << <<NA, NA>>, <<NA, NA>>, <<NA, NA>>, <<NA, NA>>, <<NA, NA>> >>
 GPatterns == IF Quick THEN {"both", "mixed", "hard", "tails"} ELSE {"both", "lower", "upper", "mixed", "hard", "tails", "none"}
 GModes == IF Quick THEN {"umulti", "multimono"} ELSE {"umulti", "mmulti", "multimono"}
+(* selection on the input Db: none, first sample masked, a middle sample masked (index of the masked sample) *)
+SelMasks(nd) == {0, 1, (nd + 1) \div 2}
+SelSeq(mk, nd) == [i \in 1..nd |-> IF i = mk THEN 0 ELSE 1]
 GibbsCases ==
-  {[k |-> "case", sim |-> "gibbs", mode |-> m, pat |-> p, nburn |-> nb, nbsimu |-> n, seed |-> s] :
-     m \in GModes, p \in GPatterns, nb \in {0, 3}, n \in {1, 2}, s \in Seeds}
+  {[k |-> "case", sim |-> "gibbs", mode |-> m, pat |-> p, nburn |-> nb, nbsimu |-> n, seed |-> s, mask |-> mk] :
+     m \in GModes \cup {"multimono"}, p \in GPatterns, nb \in {0, 3}, n \in {1, 2}, s \in Seeds, mk \in SelMasks(5)}
+GibbsOK(c) == c.mask = 0 \/ c.nbsimu = 1
 
 (* facies data: every assignment of facies to the data D4 that uses every facies, first datum facies 1 *)
 FacAssign(nfac, nd) == {f \in [1..nd -> 1..nfac] : f[1] = 1 /\ \A c \in 1..nfac : \E i \in 1..nd : f[i] = c}
 PgsAssign(rule) == IF Quick THEN {f \in FacAssign(RuleNFac(rule), 4) : f[4] = RuleNFac(rule)} ELSE FacAssign(RuleNFac(rule), 4)
 PgsCases ==
-  {[k |-> "case", sim |-> "simpgs", rule |-> r, fac |-> f, nbsimu |-> n, seed |-> s] :
-     r \in {"S2", "ST3"}, f \in FacAssign(3, 4) \cup FacAssign(2, 4), n \in 1..Min2(MaxNbSimu, 2), s \in Seeds}
+  {[k |-> "case", sim |-> "simpgs", rule |-> r, fac |-> f, nbsimu |-> n, seed |-> s, mask |-> mk] :
+     r \in {"S2", "ST3"}, f \in FacAssign(3, 4) \cup FacAssign(2, 4), n \in 1..Min2(MaxNbSimu, 2), s \in Seeds, mk \in SelMasks(4)}
 BiPgsCases ==
-  {[k |-> "case", sim |-> "simbipgs", rule |-> r, rule2 |-> r2, fac |-> f, fac2 |-> f2, nbsimu |-> n, seed |-> s] :
+  {[k |-> "case", sim |-> "simbipgs", rule |-> r, rule2 |-> r2, fac |-> f, fac2 |-> f2, nbsimu |-> n, seed |-> s, mask |-> mk] :
      r \in {"S2", "ST3"}, r2 \in {"S2"}, f \in FacAssign(3, 4) \cup FacAssign(2, 4), f2 \in {<<1, 2, 2, 1>>, <<2, 2, 1, 1>>},
-     n \in 1..Min2(MaxNbSimu, 2), s \in Seeds}
-PgsOK(c) == c.fac \in PgsAssign(c.rule)
+     n \in 1..Min2(MaxNbSimu, 2), s \in Seeds, mk \in SelMasks(4)}
+(* a selection is combined with one simulation (the storage layouts are then consistent, LayoutOK) *)
+PgsOK(c) == c.fac \in PgsAssign(c.rule) /\ (c.mask = 0 \/ c.nbsimu = 1)
 (* product proportions of two rules (first facies index varies fastest), percent x 100 *)
 Props2(r, r2) == [j \in 1..(RuleNFac(r) * RuleNFac(r2)) |->
                     RuleProps(r)[((j - 1) % RuleNFac(r)) + 1] * RuleProps(r2)[((j - 1) \div RuleNFac(r)) + 1]]
@@ -292,7 +307,7 @@ Init ==
   \/ "cases" \in Parts /\ st \in TBCases
   \/ "cases" \in Parts /\ st \in NearCases
   \/ "cases" \in Parts /\ st \in RankCases
-  \/ "cases" \in Parts /\ st \in GibbsCases
+  \/ "cases" \in Parts /\ st \in {c \in GibbsCases : GibbsOK(c)}
   \/ "cases" \in Parts /\ st \in {c \in PgsCases : PgsOK(c)}
   \/ "cases" \in Parts /\ st \in {c \in BiPgsCases : PgsOK(c)}
 Next == GibbsUpdate
